@@ -88,6 +88,22 @@ def generate(tier, seed):
                     steps = ["AF:%s:%s" % (fn, u), "SM:" + newsp, "SR:10", "SA:" + adapter_F(lines_for(dnew)), "FRESH"] + qblock(dnew)
                     cases.append(case("eng", spec_of(K[old]), adapter_F(lines_for(dnew)), "-", steps))
                     dist["function_then_model"] = dist.get("function_then_model", 0) + 2
+    # set_role_manager with auto-build OFF, the replacement manager then filled by an explicit build_role_links (after a role
+    # rule was added and saved): the matcher's role function must read the manager now installed, as the twin's does
+    dist["role_manager_without_auto_build"] = 0
+    for name in names:
+        d = K[name]
+        if not d["g"]:
+            continue
+        for gk, ar in d["g"].items():
+            pool = SUBS3 if gk == "g" else OBJS + ["res"]
+            for a, b2 in itertools.product(pool[:2], pool[1:3]):
+                for back_on in (False, True):
+                    for depth in (10, 3):
+                        steps = ["EB:0", "SR:%d" % depth, A("g", gk, [a, b2] + (["d1"] if ar == 3 else [])), "SV", "BR"] + (["EB:1"] if back_on else []) + \
+                                ["FRESH"] + qblock(d)
+                        cases.append(case("eng", spec_of(d), adapter_F(lines_for(d)), "-", steps))
+                        dist["role_manager_without_auto_build"] += 1
     n_seq = 250 if tier == "quick" else 20000
     for _ in range(n_seq):
         name = rnd.choice(names)
